@@ -520,6 +520,8 @@ impl<Point: Coordinate+Coordinate2D, Label: Copy> GraphPath<Point, Label> {
                 // Remove this edge if it's very short
                 let edge_ref = GraphEdgeRef { start_idx: point_idx, edge_idx: edge_idx, reverse: false };
                 if self.edge_is_very_short(edge_ref) {
+                    #[cfg(flo_curves_verif)]
+                    verif_collide_trace::push(verif_collide_trace::Event::Removed(point_idx, edge_idx));
                     self.remove_edge(edge_ref);
                 } else {
                     // Next edge
